@@ -41,7 +41,7 @@ def check(case: Dict[str, Any]) -> CaseInfo:
 
     with scratch_dir() as d:
         files = write_case(case, d)
-        ta = load_analysis(files, d, mp=case.get("mp", False))
+        ta = load_analysis(files, d, mp=case.get("mp", False), prelude=case.get("prelude"))
         df = hta_call("get_temporal_breakdown", lambda: ta.get_temporal_breakdown(visualize=False))
     require(sorted(int(r) for r in df["rank"]) == sorted(files), "rows:one_per_rank", lambda: f"ranks {list(df['rank'])}")
     classes: List[str] = []
